@@ -33,7 +33,10 @@ def run_text_wf(chk, n):
     rng = chk.rng
     reports = []
     for i in range(n):
-        if i % 2 == 0:
+        if i < len(G.shape_models()):
+            files = G.shape_models()[i]
+            reports.append((G.text_report(rng, files), files))
+        elif i % 2 == 0:
             files = G.gen_model(rng)
             rep = G.text_report(rng, files)
             reports.append((rep, files))
@@ -44,7 +47,7 @@ def run_text_wf(chk, n):
     exprs = [vlib.app("run_gcov_spec", G.report_coq(r)) for r, _ in reports]
     impl = vlib.run_impl("gcov_text", cases, chk.pid, parallel=4)
     model = vlib.run_model(chk.pid, "Run.ShowGcov", exprs)
-    dist = {"reports": len(reports), "sections": 0, "records": 0, "sections_without_lines": 0, "negative_counts": 0, "crlf_lines": 0,
+    dist = {"reports": len(reports), "sections": 0, "records": 0, "sections_without_lines": 0, "sections_with_lines_without_functions": 0, "negative_counts": 0, "crlf_lines": 0,
             "unknown_keys": 0, "max_count": 0, "branch_records": 0, "function_records": 0, "dup_lcount_sections": 0,
             "names_with_comma": 0, "non_ascii_names": 0}
     dis = []
@@ -89,6 +92,7 @@ def run_text_wf(chk, n):
             dist["records"] += len(recs)
             lc = [r for r in recs if r[0] == "lcount"]
             dist["sections_without_lines"] += not lc
+            dist["sections_with_lines_without_functions"] += bool(lc) and not any(r[0] == "function" for r in recs)
             dist["negative_counts"] += sum(1 for r in lc if r[2])
             dist["dup_lcount_sections"] += len({int(r[1]) for r in lc}) != len(lc)
             dist["crlf_lines"] += sum(1 for _, c in s["recs"] if c)
@@ -257,13 +261,16 @@ def json_correspond(case, a, tree, rm):
 def run_json_wf(chk, n):
     rng = chk.rng
     items, models = [], []
-    for _ in range(n):
-        files = G.gen_model(rng)
+    for i in range(n):
+        # the first reports are fixed shapes: every combination of {no, one, several} line entries x {no, one, several} functions
+        # x {no, some} branches, alone and next to other files (a file with lines and "functions": [] must be reported,
+        # one with functions and "lines": [] must not)
+        files = G.shape_models()[i] if i < len(G.shape_models()) else G.gen_model(rng)
         tree = G.json_tree(rng, files, floats=rng.choice([0.0, 0.25, 0.6]))
         items.append((G.render_json(rng, tree, version=rng.choice(["1", "1", "2"])), None, tree))
         models.append(files)
     rows = run_json_cases(chk, items, "wf")
-    dist = {"reports": n, "files": 0, "files_without_lines": 0, "line_entries": 0, "duplicate_line_entries": 0, "branch_entries": 0,
+    dist = {"reports": n, "files": 0, "files_without_lines": 0, "files_with_lines_without_functions": 0, "files_with_functions_without_lines": 0, "line_entries": 0, "duplicate_line_entries": 0, "branch_entries": 0,
             "function_entries": 0, "float_counter_tokens": 0, "max_counter": 0, "serde_float_differs_from_correct_rounding": 0}
     dis = []
     for ((text, _, tree), case, ri, htree, rm), files in zip(rows, models):
@@ -304,6 +311,8 @@ def run_json_wf(chk, n):
         dist["files"] += len(tree)
         for f in tree:
             dist["files_without_lines"] += not f["lines"]
+            dist["files_with_lines_without_functions"] += bool(f["lines"]) and not f["functions"]
+            dist["files_with_functions_without_lines"] += bool(f["functions"]) and not f["lines"]
             dist["line_entries"] += len(f["lines"])
             dist["duplicate_line_entries"] += len(f["lines"]) - len({l["line_number"] for l in f["lines"]})
             dist["function_entries"] += len(f["functions"])
@@ -583,16 +592,33 @@ def confirm_witnesses(chk):
     corpus("fixed 61ca3c1: count -1", "gcov_json",
            {"json": G.render_json(rng, [{"file": b"a.c", "functions": [], "lines": [{"line_number": "1", "count": "-1", "branches": []}]}])}, "err",
            "a counter that does not fit 64 bits (or is negative) must be rejected with an error: not clamped, not wrapped, not a panic")
-    tree = [{"file": b"a.c", "functions": [], "lines": [{"line_number": "1", "count": "28259282275385470e1", "branches": []}]}]
-    a = G.results_from_impl(vlib.run_impl("gcov_json", [{"json": G.render_json(rng, tree)}], chk.pid)[0])
+    # the remaining known finding: the report below says line 1 of a.c ran 28259282275385470e1 times; the binary64 that literal
+    # denotes is 282592822753854688, serde_json without float_roundtrip reads 282592822753854720
+    tree = [{"file": b"a.c", "functions": [{"name": "f", "demangled_name": b"f()", "start_line": "1", "execution_count": "1"}],
+             "lines": [{"line_number": "1", "count": "28259282275385470e1", "branches": []}]}]
+    case = {"json": G.render_json(rng, tree)}
+    a = G.results_from_impl(vlib.run_impl("gcov_json", [case], chk.pid)[0])
     chk.count()
-    ulp = a[0] == "ok" and a[1][0][1]["lines"] == [[1, 282592822753854720]] and int(float("28259282275385470e1")) == 282592822753854688
-    out["known json-float-counter-ulp reproduces"] = ulp
-    if ulp and "json-float-counter-ulp" in known:
-        chk.known(known["json-float-counter-ulp"])
-    elif ulp:
-        chk.violation({"kind": "oracle", "witness": "json-float-counter-ulp", "impl": a,
-                       "clause": "a floating-point counter must be read as the binary64 value it denotes"}, tag="corpus")
+
+    def expect(count):
+        return [[b"a.c".hex(), G.canon({1: count}, {}, {b"f()": (1, True)})]]
+    exact, off = expect(int(float("28259282275385470e1"))), expect(282592822753854720)
+    if a[0] == "ok" and vlib.canon(a[1]) == vlib.canon(off):
+        out["known json-float-counter-ulp"] = "reproduces"
+        if "json-float-counter-ulp" in known:
+            chk.known(known["json-float-counter-ulp"])
+        else:
+            chk.violation({"kind": "oracle", "engine": "gcov_json", "case": case, "impl": a, "expected": exact,
+                           "clause": "a floating-point counter must be read as the binary64 value it denotes"}, tag="corpus")
+    elif a[0] == "ok" and vlib.canon(a[1]) == vlib.canon(exact):
+        # the defect is gone (e.g. float_roundtrip enabled): nothing to suppress, nothing to report
+        out["known json-float-counter-ulp"] = "no longer reproduces (witness is now read exactly)"
+        vlib.log("[C09] known finding json-float-counter-ulp no longer reproduces: its witness is read exactly")
+    else:
+        out["known json-float-counter-ulp"] = "witness gives neither the recorded nor the exact reading"
+        chk.violation({"kind": "oracle", "engine": "gcov_json", "case": case, "impl": a, "expected": exact,
+                       "clause": "parse_gcov_gz of a well-formed JSON report must yield exactly what the report says "
+                                 "(witness of known finding json-float-counter-ulp: neither the recorded off-by-one-ulp reading nor the exact one)"}, tag="corpus")
     return out
 
 
